@@ -156,6 +156,87 @@ theorem vw_varied {maps : Maps} {base : PH} {sens : Option String} {n : Nat} {va
   obtain ⟨_, _, _, _, _, halt⟩ := hspec i s hs
   exact alterVariations_varied vars base.vw s.vw k l pre post x p v hwf hok halt hl hsl htx hpost hg hv
 
+/-- `vw_described`: description → value.  For a (well-formed) nested description of a virtual-world
+key `k`, every described leaf path `q` with listed values `vals` holds, in set `i`, exactly
+`vals[i]` — the unpacking (`unpack`), the per-set slice (`unpack_slice`), the order of the applied
+chain dictionaries and their mutual non-interference (the described leaf paths are pairwise
+incomparable, `listLeaves_prefixFree`) composed with `vw_varied` -/
+theorem vw_described {maps : Maps} {base : PH} {sens : Option String} {n : Nat} {desc vars : KV}
+    {sets : List PH} {i : Nat} {s : PH} {k : String} {vk : KV} {q : Path} {vals : JL} {v : J}
+    (hu : unpack n desc = .ok vars)
+    (h : vary maps base sens "virtual_world" n vars = .ok sets) (hs : sets[i]? = some s)
+    (hi : i < n) (hwf : vars.wf = true) (hok : varsOK (.high maps.vw) n i base.vw vars = true)
+    (hk : desc.lookup k = some (.obj vk)) (hvk : vk.wf = true)
+    (hq : (q, vals) ∈ listLeaves vk) (hv : vals.get? i = some v) (hleaf : v.isObj = false) :
+    get? (k :: q) (.obj s.vw) = some v := by
+  obtain ⟨L, hL, hvars⟩ := unpack_lookup n desc vars k vk hu hk
+  obtain ⟨b, hb, hslice, hspec⟩ := unpack_slice vk n i L hL hi
+  obtain ⟨P1, P2, hP⟩ := List.append_of_mem hq
+  rw [hP] at hspec
+  obtain ⟨b1, x, b2, hbsplit, hx, hb2⟩ := map_some_split _ P1 (q, vals) P2 b hspec
+  simp only [hv, Option.map_some, Option.some.injEq] at hx
+  subst hx
+  have hpf := listLeaves_prefixFree vk hvk
+  rw [hP, List.map_append, List.map_cons, List.pairwise_append] at hpf
+  have hafter : ∀ q', q' ∈ P2.map Prod.fst → Incomparable q q' := by
+    intro q' hq'
+    exact (List.pairwise_cons.mp hpf.2.1).1 q' hq'
+  apply vw_varied h hs hwf hok hvars (hslice.trans hbsplit)
+  · simp [touched, single, KV.lookup, touched_chain_self q v hleaf]
+  · intro y hy
+    -- y is the chain dictionary of a later described leaf: its path is incomparable with q
+    have hmem : some y ∈ b2.map some := List.mem_map.mpr ⟨y, hy, rfl⟩
+    rw [← hb2] at hmem
+    obtain ⟨⟨q', vals'⟩, hm', hy'⟩ := List.mem_map.mp hmem
+    cases hg : vals'.get? i with
+    | none => simp [hg] at hy'
+    | some v' =>
+      simp only [hg, Option.map_some, Option.some.injEq] at hy'
+      subst hy'
+      cases ht : touched (.obj (single k (chain q' v'))) (k :: q) with
+      | false => rfl
+      | true =>
+        simp only [touched, single, KV.lookup, if_true] at ht
+        have hpre := touched_chain_prefix q' v' q ht
+        exact absurd hpre (hafter q' (List.mem_map.mpr ⟨(q', vals'), hm', rfl⟩)).2
+  · simp [get?, single, KV.lookup, get?_chain]
+  · exact hleaf
+
+private def exMaps : Maps :=
+  { vw := .cons "emissions" (.high (.cons "rep" .gen .nil)) .nil, out := .nil, method := .nil,
+    prog := .nil }
+
+private def exBase : PH :=
+  mkPH exMaps (.cons "output_directory" (.str "out") .nil)
+    (.cons "B" (.obj (.cons "program_name" (.str "B") .nil)) .nil)
+    (.cons "weather" (.str "f") (.cons "emissions" (.obj (.cons "file" (.str "e.csv")
+      (.cons "rep" (.obj (.cons "rate" (.float 65 (-4)) (.cons "dur" (.int 365) .nil))) .nil))) .nil))
+    .nil "B"
+
+private def exDesc : KV :=
+  .cons "emissions" (.obj (.cons "rep" (.obj (.cons "rate" (.list (.cons (.int 1) (.cons (.int 2) .nil)))
+    (.cons "dur" (.list (.cons (.int 7) (.cons (.int 8) .nil))) .nil))) .nil)) .nil
+
+/-- non-vacuity of the virtual-world theorems: a two-set analysis of two leaves under one key —
+accepted, hypotheses true, two sets; set 1 holds the second listed values, everything else
+(`weather`, `emissions.file`) and the output folder `out/1` as stated -/
+example :
+    (match unpack 2 exDesc with
+      | .ok vars =>
+        vars.wf && varsOK (.high exMaps.vw) 2 0 exBase.vw vars && varsOK (.high exMaps.vw) 2 1 exBase.vw vars &&
+        (match vary exMaps exBase none "virtual_world" 2 vars with
+          | .ok [_, s1] =>
+            (match get? ["emissions", "rep", "rate"] (.obj s1.vw), get? ["emissions", "rep", "dur"] (.obj s1.vw),
+                   get? ["emissions", "file"] (.obj s1.vw), get? ["weather"] (.obj s1.vw),
+                   get? ["output_directory"] (.obj s1.sim) with
+              | some a, some b, some c, some d, some e =>
+                J.beq a (.int 2) && J.beq b (.int 8) && J.beq c (.str "e.csv") && J.beq d (.str "f") &&
+                  J.beq e (.str "out/1")
+              | _, _, _, _, _ => false)
+          | _ => false)
+      | _ => false) = true := by
+  decide +kernel
+
 /-- `out_folder`: `alter_simulation_info(i)` rewrites the output folder to `<out>/<i>` and nothing
 else; different sets get different folders -/
 theorem out_folder {sim sim' : KV} {i : Nat} (h : alterSimInfo sim i = .ok sim') :
@@ -265,6 +346,121 @@ theorem names_present_no_clash {maps : Maps} {base : PH} {sens : String} {n : Na
     simp only
     rw [hother (rename sens i) (hclash i hi)]
     exact (varyMethodsOuter_present base sens n vars hne n 0 _ acc ho).1 i (Nat.zero_le _) (by omega)
+
+/-! ### programs level: inside a varied copy -/
+
+/-- `program_frame` / `program_varied`: the copy `P_i` made for set `i` is the program `P` with
+`program_name` renamed; every other leaf of `P` that no applied variation reaches keeps its value,
+and the path reached by the last applied variation of a key holds the value listed for this set
+(hypotheses `varsOK` on the renamed copy: evaluated per varied program by the check) -/
+theorem program_copy {base : PH} {n i : Nat} {pname : String} {pvars : J} {nm : String} {p : J}
+    {sm : SM} (h : varyProgram base n i pname pvars = .ok (nm, p, sm)) :
+    ∃ pk vk pk1 pk2, base.programs.lookup pname = some (.obj pk) ∧ pvars = .obj vk ∧
+      nm = rename pname i ∧ p = .obj pk2 ∧
+      alterD sm pk "program_name" (.str (rename pname i)) = .ok pk1 ∧
+      (flatD sm pk "program_name" (.str (rename pname i)) = true →
+        pk1 = pk.setKey "program_name" (.str (rename pname i))) ∧
+      -- frame
+      (vk.wf = true → varsOK sm n i pk1 vk = true →
+        ∀ k q v, k ≠ "program_name" → get? (k :: q) (.obj pk) = some v → v.isObj = false →
+          (∀ k' l x, vk.lookup k' = some (.list l) → x ∈ sliceFor n i l →
+              touched (.obj (single k' x)) (k :: q) = false) →
+          get? (k :: q) (.obj pk2) = some v) ∧
+      -- varied
+      (vk.wf = true → varsOK sm n i pk1 vk = true →
+        ∀ k l pre post x path v, vk.lookup k = some (.list l) → sliceFor n i l = pre ++ x :: post →
+          touched (.obj (single k x)) path = true →
+          (∀ y, y ∈ post → touched (.obj (single k y)) path = false) →
+          get? path (.obj (single k x)) = some v → v.isObj = false →
+          get? path (.obj pk2) = some v) := by
+  obtain ⟨pk, vk, pk1, pk2, hp, _, hv, h1, h2, hnm, hpp⟩ := varyProgram_inv h
+  refine ⟨pk, vk, pk1, pk2, hp, hv, hnm, hpp, h1, ?_, ?_, ?_⟩
+  · intro hf
+    have := alterD_eq_upd (.str (rename pname i)) sm pk pk1 "program_name" rfl hf h1
+    simpa [updValue] using this
+  · intro hwf hok k q v hk hg hleaf ht
+    have hg1 : get? (k :: q) (.obj pk1) = some v := by
+      simpa [get?, alterD_other h1 hk] using hg
+    exact alterVariations_frame vk pk1 pk2 (k :: q) v hwf hok h2 ht hg1 hleaf
+  · intro hwf hok k l pre post x path v hl hsl htx hpost hg hleaf
+    exact alterVariations_varied vk pk1 pk2 k l pre post x path v hwf hok h2 hl hsl htx hpost hg hleaf
+
+/-- `names_present_programs`: every copy `<program>_<i>` (n per varied program) is present in the
+set of a programs-level analysis — no hypothesis: a clash can overwrite a program (F19b) but never
+make a name disappear at this level -/
+theorem names_present_programs {maps : Maps} {base : PH} {sens : Option String} {n : Nat}
+    {vars : KV} {s : PH} (h : vary maps base sens "programs" n vars = .ok [s]) :
+    ∀ pname i, pname ∈ vars.keys → i < n → (s.programs.lookup (rename pname i)).isSome = true := by
+  intro pname i hp hi
+  obtain ⟨s0, sim', hs0, _, hsets⟩ := vary_single (Or.inl rfl) h
+  rcases hs0 with ⟨_, hps⟩ | ⟨e, _⟩
+  · simp only [List.cons.injEq, and_true] at hsets
+    subst hsets
+    simp only [varyProgramsSet] at hps
+    split at hps
+    · split at hps
+      · cases hps
+      · rename_i acc hacc
+        cases hps
+        exact (varyProgramsOuter_present base n vars n 0 _ acc hacc).1 pname i hp (Nat.zero_le _) (by omega)
+    · cases hps
+  · exact absurd e (by decide)
+
+/-- `program_in_set`: when the name `<P>_<i>` is given to no other copy and is not the baseline's
+name, the set holds under it exactly the copy `varyProgram` made (to which `program_copy` applies) -/
+theorem program_in_set {maps : Maps} {base : PH} {sens : Option String} {n : Nat} {vars : KV}
+    {s : PH} {pname : String} {pvars : J} {i : Nat}
+    (h : vary maps base sens "programs" n vars = .ok [s]) (hwf : vars.wf = true)
+    (hl : vars.lookup pname = some pvars) (hi : i < n)
+    (hnc : ∀ q j, q ∈ vars.keys → (q ≠ pname ∨ j ≠ i) → rename q j ≠ rename pname i) :
+    ∃ p sm, varyProgram base n i pname pvars = .ok (rename pname i, p, sm) ∧
+      s.programs.lookup (rename pname i) = some p := by
+  obtain ⟨s0, sim', hs0, _, hsets⟩ := vary_single (Or.inl rfl) h
+  rcases hs0 with ⟨_, hps⟩ | ⟨e, _⟩
+  · simp only [List.cons.injEq, and_true] at hsets
+    subst hsets
+    simp only [varyProgramsSet] at hps
+    split at hps
+    · split at hps
+      · cases hps
+      · rename_i acc hacc
+        cases hps
+        exact varyProgramsOuter_lookup base n vars pname pvars i hwf hl hnc n 0 _ acc hacc
+          (Nat.zero_le _) (by omega)
+    · cases hps
+  · exact absurd e (by decide)
+
+/-! ### methods level: the varied method -/
+
+/-- `method_copy`: one varied method of the program copy of set `i` —
+(a) every other method keeps its value,
+(b) the method is stored under `<m>_<i>` and (flat holders) is the nested update of the original
+    method by the collected variations with `method_name` renamed,
+(c) the label list is the old one with the first `m` removed and `<m>_<i>` appended -/
+theorem method_copy {n i : Nat} {ms ms2 : KV} {mm mm1 : SML} {labels labels1 : List J}
+    {mname : String} {mvars : J}
+    (h : varyMethod n i ms mm labels mname mvars = .ok (ms2, mm1, labels1)) :
+    ∃ target vk ls ad, ms.lookup mname = some target ∧ mvars = .obj vk ∧
+      buildAlter n i .nil vk = .ok ad ∧
+      (∀ k, k ≠ mname → k ≠ rename mname i → ms2.lookup k = ms.lookup k) ∧
+      (∀ tk, target = .obj tk → ad.wf = true →
+        flatD (.high mm1) ((ms.erase mname).setKey (rename mname i) target) (rename mname i)
+          (.obj (ad.setKey "method_name" (.str (rename mname i)))) = true →
+        ms2.lookup (rename mname i)
+          = some (.obj (updNested tk (ad.setKey "method_name" (.str (rename mname i)))))) ∧
+      removeFirst (.str mname) labels = some ls ∧ labels1 = ls ++ [J.str (rename mname i)] := by
+  obtain ⟨target, vk, ls, ad, ht, hv, hls, hl1, had, halt⟩ := varyMethod_inv h
+  refine ⟨target, vk, ls, ad, ht, hv, had, ?_, ?_, hls, hl1⟩
+  · intro k hk1 hk2
+    rw [alterD_other halt hk2, KV.lookup_setKey_ne _ hk2, KV.lookup_erase_ne hk1]
+  · intro tk htk hadwf hflat
+    subst htk
+    have hwfv : (J.obj (ad.setKey "method_name" (.str (rename mname i)))).wf = true := by
+      simp only [J.wf]
+      exact KV.wf_setKey _ _ _ hadwf rfl
+    have := alterD_eq_upd _ _ _ _ _ hwfv hflat halt
+    rw [this, KV.lookup_setKey_same]
+    simp [updValue, KV.lookup_setKey_same]
 
 theorem names_distinct {name : String} {i j : Nat} (h : rename name i = rename name j) : i = j :=
   rename_inj h
